@@ -85,4 +85,13 @@ theorem C04_decimal_exact_int_accepted (n t : Nat) (ht : n / 2 ^ 52 = 1075 + t) 
     Codec.decIsKey ⟨false, (2 ^ 52 + n % 2 ^ 52) * 2 ^ t, 0⟩ (n : Int) = true :=
   Codec.decIsKey_exact_int n t ht hf
 
+/-- the digit reader under the number texts is positional, and rejects anything but digits -/
+theorem C04_decimal_digits_positional (l : List Char) (c : Char) (hl : l ≠ []) (hc : c.isDigit = true) :
+    Codec.digitsVal (l ++ [c]) = (Codec.digitsVal l).map (fun a => a * 10 + (c.toNat - 48)) :=
+  Codec.digitsVal_snoc l c hl hc
+
+theorem C04_decimal_digits_reject (l r : List Char) (c : Char) (hc : c.isDigit = false) :
+    Codec.digitsVal (l ++ c :: r) = none :=
+  Codec.digitsVal_nondigit l r c hc
+
 end Sod.Props
